@@ -96,7 +96,7 @@ def biased_size(draw, lo, hi):
 
 
 @st.composite
-def trees_and_leaves(draw, max_obj, max_sp, min_obj=1, min_sp=1, obj_poly=0, sp_poly=0, concentrate=False):
+def trees_and_leaves(draw, max_obj, max_sp, min_obj=1, min_sp=1, obj_poly=0, sp_poly=0, concentrate=False, misleading=False):
     nsp = biased_size(draw, min_sp, max_sp)
     species = SPECIES_NAMES[:nsp]
     stree = draw(nested_tree(species, polytomies=sp_poly, max_arity=3))
@@ -109,7 +109,11 @@ def trees_and_leaves(draw, max_obj, max_sp, min_obj=1, min_sp=1, obj_poly=0, sp_
         hosts = [species[i] for i in sorted(draw(st.permutations(list(range(nsp))))[:k])]
     for i in range(nobj):
         s = hosts[draw(st.integers(0, len(hosts) - 1))]
-        los[f"{s}_{i}"] = s
+        shown = s
+        if misleading and nsp >= 2 and chance(draw, 1, 3):
+            # the leaf is hosted by s (explicit assignment) but named after another species
+            shown = species[(species.index(s) + 1 + draw(st.integers(0, nsp - 2))) % nsp]
+        los[f"{shown}_{i}"] = s
     otree = draw(nested_tree(list(los), polytomies=obj_poly))
     return otree, stree, los
 
@@ -147,6 +151,22 @@ def coherent_costs(draw, labelled=True, maxv=3, huge=True):
         elif c[which] != INF:
             c[which] += big
     return c
+
+
+ALT_FAMILY_NAMES = ["g9", "g10", "g2", "16S", "g100", "trnA", "g11", "23S", "x1y10", "x1y9", "G2", "0"]
+
+
+def alt_family_map(fams, salt=0):
+    """g0, g1, ... -> names whose natural-sort, string-sort and case orders all differ (digit-leading ones included)."""
+    return {f: ALT_FAMILY_NAMES[(int(f[1:]) + salt) % len(ALT_FAMILY_NAMES)] for f in fams}
+
+
+def rename_families(case, fmap):
+    out = dict(case)
+    for key in ("leaf_syntenies", "_lab_o", "_lab_u"):
+        if key in case:
+            out[key] = {k: [fmap.get(x, x) for x in v] for k, v in case[key].items()}
+    return out
 
 
 @st.composite
@@ -243,8 +263,11 @@ def leaf_syntenies(draw, leaves, max_fam=4, single_prob=0, allow_inconsistent=Tr
 @st.composite
 def rec_case(draw, max_obj=5, max_sp=4, min_obj=1, min_sp=1, costs="coherent", labelled=False,
              max_fam=4, prescribed_root=False, single_prob=0, obj_poly=0, sp_poly=0,
-             allow_inconsistent=True, maxcost=3, concentrate=False, prescribed_odds=(1, 5)):
-    otree, stree, los = draw(trees_and_leaves(max_obj, max_sp, min_obj, min_sp, obj_poly, sp_poly, concentrate))
+             allow_inconsistent=True, maxcost=3, concentrate=False, prescribed_odds=(1, 5), misleading=False):
+    """misleading: a third of the object leaves are named after a species other than the one hosting them - only for
+    callers that always pass the explicit leaf_object_species (the names then carry no information)."""
+    otree, stree, los = draw(trees_and_leaves(max_obj, max_sp, min_obj, min_sp, obj_poly, sp_poly, concentrate,
+                                              misleading and chance(draw, 1, 3)))
     case = {
         "object_tree": nested_to_newick(otree, "O"),
         "species_tree": nested_to_newick(stree, "S"),
@@ -456,7 +479,7 @@ def labelled_reconciliation_case(draw, max_obj=5, max_sp=5, max_fam=4, costs="fr
     from .plain import Instance
 
     case = draw(rec_case(max_obj=max_obj, max_sp=max_sp, min_obj=min_obj, min_sp=min_sp, costs=costs, labelled=True, max_fam=max_fam,
-                         allow_inconsistent=False, maxcost=maxcost, concentrate=concentrate))
+                         allow_inconsistent=False, maxcost=maxcost, concentrate=concentrate, misleading=True))
     inst = Instance(case)
     fams = sorted({f for s in case["leaf_syntenies"].values() for f in s}, key=lambda f: int(f[1:]))
     # the hidden order is not stored in the case: recover an order compatible with all leaves
